@@ -17,6 +17,8 @@ PointerOf(ops) ==
   THEN ops[CHOOSE i \in 1..Len(ops) : ops[i].k = "ix"].reg
   ELSE "-"
 
+HasDisplacement(ops) == \E i \in 1..Len(ops) : ops[i].k = "ix" /\ ops[i].mode = "disp"
+
 Unavailable(mn, ops, flags) ==
   \/ "NoMul"    \in flags /\ mn \in MulFamily
   \/ "NoJmp"    \in flags /\ mn \in {"jmp", "call"}
@@ -30,6 +32,7 @@ Unavailable(mn, ops, flags) ==
   \/ "NoElpm"   \in flags /\ mn = "elpm"
   \/ "NoElpmX"  \in flags /\ mn = "elpm" /\ Len(ops) > 0
   \/ "Tiny1x"   \in flags /\ mn \in Tiny1xLacks
+  \/ "Tiny1x"   \in flags /\ mn \in {"ld", "st"} /\ HasDisplacement(ops)      \* ldd/std, however the mnemonic is written
   \/ "Avr8l"    \in flags /\ mn \in {"adiw", "sbiw"}
   \/ "NoXreg"   \in flags /\ mn \in PointerOps /\ PointerOf(ops) = "X"
   \/ "NoYreg"   \in flags /\ mn \in PointerOps /\ PointerOf(ops) = "Y"
